@@ -195,6 +195,14 @@ pub fn check(prop: &str, tier_name: &str) -> i32 {
     let nw = n_workers();
     println!("simc: property={} tier={} VERIF_SEED={} workers={} corpus={} programs features={}", prop, t.name, seed, nw, corpus.len(), features());
 
+    // ---- phase 0a: the interposed seams (hash keys, wall clock, pid) must really be in force
+    match std::env::current_exe().ok().and_then(|e| std::process::Command::new(e).arg("seamtest").output().ok()) {
+        Some(o) if o.status.success() => {}
+        other => {
+            eprintln!("HARNESS: seam self-test failed: std no longer takes hash keys / clock / pid from the simulator ({:?})", other.map(|o| String::from_utf8_lossy(&o.stdout).to_string()));
+            return 2;
+        }
+    }
     // ---- phase 0: determinism self-test (same seeds, different processes, different worker counts)
     let mut a1 = Agg::default();
     a1.run(1.max(nw / 4), batches(prop, base, 0, t.selftest, t.selftest.div_ceil(3), true));
@@ -563,6 +571,14 @@ fn abort_key(class: &str, w: &World) -> String {
     let mut counts: BTreeMap<&[u8], usize> = BTreeMap::new();
     for t in &toks {
         *counts.entry(&src[t.0..t.1]).or_insert(0) += 1;
+    }
+    // repetition glued into one token ("sizeofsizeofsizeof..."): most frequent non-blank 6-byte window
+    if src.len() > 3000 {
+        for w in src.windows(6) {
+            if !w.iter().all(|b| b.is_ascii_whitespace()) {
+                *counts.entry(w).or_insert(0) += 1;
+            }
+        }
     }
     let top = counts.values().max().copied().unwrap_or(0);
     if top >= 500 {
